@@ -20,9 +20,9 @@ Definition cases : list (nat * list label) := [
 %s
 ].
 Definition rejects := Eval vm_compute in
-  flat_map (fun c => match first_reject_diag init (snd c) 0 with Some (i, code) => [(fst c, i, code)] | None => [] end) cases.
+  flat_map (fun c => match first_reject_diag xinit (snd c) 0 with Some (i, code) => [(fst c, i, code)] | None => [] end) cases.
 Definition monitor_hits := Eval vm_compute in
-  flat_map (fun c => match first_violation ginit (snd c) 0 with Some i => [(fst c, i)] | None => [] end) cases.
+  flat_map (fun c => match first_violation xginit (snd c) 0 with Some i => [(fst c, i)] | None => [] end) cases.
 Definition disciplined_count := Eval vm_compute in
   length (filter (fun c => disciplined (snd c)) cases).
 Print rejects.
@@ -44,6 +44,7 @@ DIAG = {
     1: ("model:clash-accepted", "a datum that conflicts with what is stored was not rejected (the model expects a clash error)"),
     2: ("model:reader-not-woken", "quiescence although the key of a waiting reader is stored (a satisfiable query stays blocked)"),
     3: ("model:answer-differs", "a reader got other content than the value stored first for its key"),
+    4: ("model:verdict-write-not-atomic", "another operation on the store ran between a Store's expiry verdict (deadliner.Add) and the end of that Store"),
 }
 
 
@@ -116,6 +117,8 @@ def main():
             key = "trace-monitor"
             if lab.startswith("LAnswer") and "KAgg" in lab:
                 key = "F2:aggregate-replaced"
+            elif lab.startswith(("LAdd", "LAwaitReg", "LPubKey")) or (lab.startswith("LStore") and idx > 0 and not h["labels"][idx - 1].startswith(("LAdd", "LExpire", "LAnswer", "LCancel", "LQuiet"))):
+                key = "verdict-write-not-atomic"
             R.violation(key, "observed trace violates the C06 monitor at label %d (%s)" % (idx, lab),
                         {"script": h["script"], "labels": h["labels"], "index": idx,
                          "how": "./check C06 --replay <this file> re-runs the script against /repo"})
